@@ -19,6 +19,9 @@ open PsdVerif
 
 inductive CellKind where
   | moduleMutable | classMutable | registry | memo | classAttrAssigned | globalRebound
+  /-- a module-level or class-level name bound at import to an object of unknown, possibly mutable type
+  (`RandomState(0)`, a class instance, a cache object): every use inside a function counts as a write -/
+  | moduleObject
   deriving DecidableEq, Repr
 
 structure Cell where
